@@ -1,4 +1,4 @@
-\* C04: behaviour generation -- print every document of the universe
+\* C04 and C05: behaviour generation -- print every document of the universe
 SPECIFICATION Spec
 CONSTANTS
   UNIVERSE = "quick"
